@@ -791,6 +791,12 @@ def resolvers(ctx):
                     q = COLUMN_QUANTITY[c]
                     if not isinstance(u, (UnitKey, UnitExpr)) or u.styles != {'UQ'} or not _dim_ok(u, q):
                         bad.append('%s (a %s) has unit %r' % (c, q, u))
+                    elif q == 'torque':
+                        # LAMMPS states torque in force x distance units in every style and lists no separate torque unit for some (electron): the column is the style's
+                        # force unit times its length unit, not a table entry that LAMMPS does not define
+                        fl = unit_factor(UnitKey('UQ', 'force')) * unit_factor(UnitKey('UQ', 'length'))
+                        if sp.simplify(unit_factor(u) - fl) != 0:
+                            bad.append('%s (a torque) has unit %r, not force x length of the style' % (c, u))
                 elif c in SCALED_COLUMNS:
                     if u != 'scaled':
                         bad.append('%s must be box-relative, has unit %r' % (c, u))
